@@ -24,7 +24,7 @@ func checkC07(c *Check) {
 	}
 	ruleNoInputRecursion(c, p, "R07.1")
 	ruleMagicDispatch(c, p, "R07.2")
-	ruleBlockSizeGuard(c, p, "R07.3")
+	ruleBlockSizeNumeric(c, p, "R07.3")
 	ruleAllocSites(c, p, "R07.4")
 	ruleGetTotal(c, p, "R07.5")
 	ruleReaderShutdown(c, p, "R07.6")
